@@ -23,6 +23,9 @@ pub enum VoiceChoice {
     /// one of NPERTURBED fixed PDF-perturbed copies of the bundled voice
     Perturbed(usize),
     Generated(Box<VoiceSpec>),
+    /// a generated voice plus same-metadata variants, combined with non-uniform (non-dyadic)
+    /// interpolation weights: [duration, parameter per stream.., gv per stream..]
+    GeneratedSet { voices: Vec<VoiceSpec>, weights: Vec<Vec<f64>> },
 }
 
 impl VoiceChoice {
@@ -35,8 +38,44 @@ impl VoiceChoice {
                 if v.stage == 0 { "mcp" } else { "lsp" },
                 v.streams.len()
             ),
+            VoiceChoice::GeneratedSet { voices, .. } => format!("voice:generated-set-of-{}", voices.len()),
         }
     }
+    /// The (first) generated spec, if any.
+    pub fn base_spec(&self) -> Option<&VoiceSpec> {
+        match self {
+            VoiceChoice::Generated(v) => Some(v),
+            VoiceChoice::GeneratedSet { voices, .. } => voices.first(),
+            _ => None,
+        }
+    }
+    pub fn nstreams(&self) -> usize {
+        self.base_spec().map(|v| v.streams.len()).unwrap_or(3)
+    }
+}
+
+/// Arbitrary (non-dyadic) positive weights whose in-order sum is within f64::EPSILON of 1.
+pub fn simplex_weights(t: &mut Tape, n: usize) -> Vec<f64> {
+    if n == 1 {
+        return vec![1.0];
+    }
+    let mut w: Vec<f64> = (0..n - 1).map(|_| t.uniform(0.05, 1.0) / n as f64).collect();
+    let s: f64 = w.iter().sum();
+    w.push(1.0 - s);
+    let total: f64 = w.iter().sum();
+    if (total - 1.0).abs() <= f64::EPSILON && w[n - 1] > 0.0 {
+        w
+    } else {
+        let mut v = vec![1.0 / 64.0; n];
+        v[0] = 1.0 - (n as f64 - 1.0) / 64.0;
+        v
+    }
+}
+
+pub fn load_spec_voice(spec: &VoiceSpec) -> Result<Arc<Voice>, Failure> {
+    let tmp = TempVoice(write_temp(&spec.to_bytes(), "set"));
+    let v = load_htsvoice_file(&tmp.0).map_err(|e| Failure::new("load-valid-voice", format!("generated voice rejected: {}", e)))?;
+    Ok(Arc::new(v))
 }
 
 #[derive(Debug, Clone)]
@@ -99,6 +138,34 @@ pub fn build_engine(v: &VoiceChoice) -> Result<(Engine, VoiceInfo), Failure> {
             let e = engine_from_voices(vec![perturbed_voice(*k)?])?;
             Ok((e, VoiceInfo { stage: 0, use_log_gain: false, alpha0: 0.55, nstate: 5, nstreams: 3, rate0: 48000, fperiod0: 240 }))
         }
+        VoiceChoice::GeneratedSet { voices, weights } => {
+            let mut vs = Vec::new();
+            for spec in voices {
+                vs.push(load_spec_voice(spec)?);
+            }
+            let mut e = engine_from_voices(vs)?;
+            let base = &voices[0];
+            let ns = base.streams.len();
+            let iw = e.condition.get_interporation_weight_mut();
+            let bad = |e: jbonsai::model::interporation_weight::WeightError| Failure::new("valid-weights-rejected", e.to_string());
+            iw.set_duration(&weights[0]).map_err(bad)?;
+            for i in 0..ns {
+                iw.set_parameter(i, &weights[1 + i]).map_err(bad)?;
+                iw.set_gv(i, &weights[1 + ns + i]).map_err(bad)?;
+            }
+            Ok((
+                e,
+                VoiceInfo {
+                    stage: base.stage,
+                    use_log_gain: base.use_log_gain,
+                    alpha0: base.alpha,
+                    nstate: base.num_states,
+                    nstreams: ns,
+                    rate0: base.sampling_frequency,
+                    fperiod0: base.frame_period,
+                },
+            ))
+        }
         VoiceChoice::Generated(spec) => {
             let tmp = TempVoice(write_temp(&spec.to_bytes(), "gen"));
             let e = Engine::load(&[&tmp.0]).map_err(|e| Failure::new("load-valid-voice", format!("generated voice rejected: {}", e)))?;
@@ -122,7 +189,22 @@ pub fn build_engine(v: &VoiceChoice) -> Result<(Engine, VoiceInfo), Failure> {
 /// a fixed share. `heavy_share` in percent for bundled+perturbed.
 pub fn gen_voice_choice(t: &mut Tape, heavy_share: u32, opts: GenOpts) -> VoiceChoice {
     match t.weighted(&[100 - heavy_share, heavy_share / 2, heavy_share - heavy_share / 2]) {
-        0 => VoiceChoice::Generated(Box::new(gen_voice(t, opts))),
+        0 => {
+            let base = gen_voice(t, opts);
+            // one generated case in eight is a voice SET (2..4 voices, non-uniform weights)
+            if t.chance(0.125) {
+                let n_extra = t.urange(1, 3);
+                let ns = base.streams.len();
+                let mut voices = vec![base.clone()];
+                for _ in 0..n_extra {
+                    voices.push(crate::voice::variant_voice(t, &base));
+                }
+                let weights = (0..1 + 2 * ns).map(|_| simplex_weights(t, n_extra + 1)).collect();
+                VoiceChoice::GeneratedSet { voices, weights }
+            } else {
+                VoiceChoice::Generated(Box::new(base))
+            }
+        }
         1 => VoiceChoice::Bundled,
         _ => VoiceChoice::Perturbed(t.below(NPERTURBED)),
     }
@@ -222,10 +304,7 @@ pub fn gen_engine_case(t: &mut Tape, max_labels: usize, heavy_share: u32, allow_
     let n = t.below(max_labels + 1);
     let (labels, src) = gen_label_lines(t, n, allow_random);
     let voice = gen_voice_choice(t, heavy_share, opts);
-    let nstreams = match &voice {
-        VoiceChoice::Generated(v) => v.streams.len(),
-        _ => 3,
-    };
+    let nstreams = voice.nstreams();
     let cond = gen_cond(t, nstreams);
     EngineCase { voice, source: src.name().to_string(), labels, cond }
 }
